@@ -1170,7 +1170,7 @@ impl Gen {
             }
         }
         let weights: &[(u32, &str)] = match family {
-            "swap" => &[(40, "swap"), (8, "provide"), (4, "withdraw"), (4, "donate"), (6, "forged"), (4, "misc"), (2, "factory"), (4, "third")],
+            "swap" => &[(40, "swap"), (8, "provide"), (4, "withdraw"), (4, "donate"), (6, "forged"), (4, "misc"), (2, "factory"), (4, "third"), (2, "migrate")],
             "auth" if e.pairs.iter().take(8).any(|pm| e.bal(A::T(pm.lp), pm.addr) > 0) => &[(5, "swap"), (5, "provide"), (20, "auth"), (25, "forged"), (10, "rauth"), (10, "factory"), (5, "donate"), (3, "lpmove")],
             "liquidity" => &[(10, "swap"), (30, "provide"), (25, "withdraw"), (6, "donate"), (4, "forged"), (4, "misc"), (3, "lpmove"), (3, "factory"), (5, "third")],
             "route" => &[(10, "swap"), (4, "provide"), (2, "withdraw"), (45, "route"), (4, "donate"), (6, "rauth"), (8, "misc"), (3, "third")],
@@ -1551,6 +1551,12 @@ impl Gen {
                         }
                     }
                 }
+            }
+            "migrate" => {
+                // the owner migrates a pair that trades (to the pair code itself): nothing about the pair may change
+                let cfg: ConfigResponse = e.q(e.astr(e.factory), &FacQuery::Config {}).unwrap();
+                let owner = e.aid(&cfg.owner);
+                Op::FMig { s: owner, funds: vec![], p: pm.addr, code: if r.chance(1, 2) { Some(e.pair_code) } else { None } }
             }
             "rauth" if r.chance(1, 4) => {
                 // the router's internal messages smuggled in as the payload of a `Receive`: raw (any claimed sender, also the
